@@ -17,7 +17,10 @@ FUNCTIONS = ['randmio_und', 'randmio_dir', 'randmio_und_connected', 'randmio_dir
              'number_of_components', 'binarize']
 ALLOWED_EXCEPTIONS = {'randomizer_bin_und': ('BCTParamError',), 'randmio_und_connected': ('BCTParamError',),
                       'latmio_und_connected': ('BCTParamError',)}
-GUARDS = [dict(note='swap_accepted', min=1, why='some explored path must accept at least one swap'),
+GUARDS = [dict(note='swap_accepted:' + f, min=1, why='some explored path of %s must accept at least one swap' % f)
+          for f in ('randmio_und', 'randmio_dir', 'randmio_und_connected', 'randmio_dir_connected', 'latmio_und', 'latmio_dir',
+                    'latmio_und_connected', 'randomize_graph_partial_und', 'randomizer_bin_und')] + \
+         [dict(note='swap_accepted:latmio_dir_connected', min=1, tier='thorough', why='latmio_dir_connected must accept a swap on some path'),
           dict(note='no_swap', min=1, why='some explored path must reject all its attempts')]
 ASSUMPTIONS = ['weights are arbitrary non-zero reals (symmetric for the undirected routines); binary input is the special case w = 1',
                'iteration count m is enumerated through itr = (m + 1/2)/k; the node permutation of the latticisers is forked (all n! orders)',
@@ -42,7 +45,8 @@ U4 = {'2K2': [(0, 1), (2, 3)], '2K2b': [(0, 2), (1, 3)], 'P4': [(0, 1), (1, 2), 
       'paw': [(0, 1), (1, 2), (0, 2), (2, 3)], 'C4': [(0, 1), (1, 2), (2, 3), (3, 0)], 'diamond': [(0, 1), (1, 2), (2, 3), (3, 0), (0, 2)]}
 D4 = {'2arcs': [(0, 1), (2, 3)], '3arcs_fan': [(0, 1), (0, 2), (2, 3)], '3arcs_chain': [(0, 1), (2, 3), (3, 0)],
       'recip2': [(0, 1), (1, 0), (2, 3), (3, 2)], 'ring4': [(0, 1), (1, 2), (2, 3), (3, 0)], '3arcs_in': [(1, 0), (2, 0), (3, 2)],
-      'ring4_chord': [(0, 1), (1, 2), (2, 3), (3, 0), (0, 2)]}
+      'ring4_chord': [(0, 1), (1, 2), (2, 3), (3, 0), (0, 2)],
+      'sc5': [(0, 1), (0, 2), (1, 0), (2, 3), (3, 0)], 'sc5b': [(0, 1), (0, 2), (1, 3), (2, 3), (3, 0)]}
 U5 = {'P3+K2': [(0, 1), (1, 2), (3, 4)], 'P5': [(0, 1), (1, 2), (2, 3), (3, 4)], 'C5': [(0, 1), (1, 2), (2, 3), (3, 4), (4, 0)],
       'bull': [(0, 1), (1, 2), (0, 2), (1, 3), (2, 4)]}
 
@@ -89,7 +93,7 @@ def cases(tier, seed):
                 shard_depth=(8 if m >= 2 and len(U4[s]) >= 3 else None))
         add(fn=fn, kind='randmio', n=4, sup='P4', support=und_from_edges(4, U4['P4']), iters=0, draws=4, name=fn + '/P4/zero-budget')
     for fn in ('randmio_dir', 'randmio_dir_connected'):
-        plan = [('2arcs', 1), ('2arcs', 2), ('3arcs_fan', 1), ('3arcs_fan', 2), ('3arcs_chain', 1), ('recip2', 1), ('ring4', 1), ('3arcs_in', 1)] if q else \
+        plan = [('2arcs', 1), ('2arcs', 2), ('3arcs_fan', 1), ('3arcs_fan', 2), ('3arcs_chain', 1), ('recip2', 1), ('ring4', 1), ('3arcs_in', 1), ('sc5', 1), ('sc5b', 1)] if q else \
                [(s, m) for s in D4 for m in (1, 2)] + [('2arcs', 3), ('3arcs_fan', 3)]
         for s, m in plan:
             S = dir_from_arcs(4, D4[s])
@@ -223,7 +227,7 @@ def body_randmio(case, M, extra=None):
         M.oblige('ret:unchanged_when_no_swap', land(*[eq(cell(R, a, b), W0[a][b]) for a in range(n) for b in range(n)]))
     if extra: extra('ret', M, dict(R=R, eff=eff), W0, ns[0])
     M.result('R', R); M.result('eff', eff)
-    M.note('swap_accepted' if ns[0] else 'no_swap')
+    M.note(('swap_accepted:' + fn) if ns[0] else 'no_swap')
 
 
 def body_latmio(case, M, extra=None):
@@ -254,14 +258,18 @@ def body_latmio(case, M, extra=None):
         M.oblige('ret:unchanged_when_no_swap', land(*[eq(cell(Rlatt, a, b), W0[a][b]) for a in range(n) for b in range(n)]))
     if extra: extra('ret', M, dict(Rlatt=Rlatt, Rrp=Rrp, p=p, eff=eff, D=D), W0, ns[0])
     M.result('Rlatt', Rlatt); M.result('Rrp', Rrp); M.result('eff', eff)
-    M.note('swap_accepted' if ns[0] else 'no_swap')
+    M.note(('swap_accepted:' + fn) if ns[0] else 'no_swap')
 
 
 def body_partial(case, M, extra=None):
     fn, n, sup = case['fn'], case['n'], case['support']
     vals = sym_weights(M, n, sup, False)
     A = M.array(vals, 'f'); W0 = [row[:] for row in vals]
-    bm = [[M.boolean('b_%d_%d' % (a, b)) for b in range(n)] for a in range(n)]
+    # the mask of an undirected graph is symmetric (documented domain); its diagonal is free
+    bm = [[None] * n for _ in range(n)]
+    for a in range(n):
+        for b in range(a, n):
+            bm[a][b] = bm[b][a] = M.boolean('b_%d_%d' % (a, b))
     B = M.array([[sc.ite(bm[a][b], 1, 0) if M.symbolic else float(bm[a][b]) for b in range(n)] for a in range(n)], 'f')
     rng = M.rng(budget=case['draws'])
     ns = [0]
@@ -280,7 +288,7 @@ def body_partial(case, M, extra=None):
         M.oblige('ret:unchanged_when_no_swap', land(*[eq(cell(X, a, b), W0[a][b]) for a in range(n) for b in range(n)]))
     if extra: extra('ret', M, dict(X=X, bm=bm), W0, ns[0])
     M.result('X', X)
-    M.note('swap_accepted' if ns[0] else 'no_swap')
+    M.note(('swap_accepted:' + fn) if ns[0] else 'no_swap')
 
 
 def body_binrand(case, M):
@@ -298,4 +306,4 @@ def body_binrand(case, M):
     changed = lor(*[lnot(eq(cell(X, u, v), sup[u][v])) for u in range(n) for v in range(n)])
     M.result('X', X)
     if M.symbolic:
-        M.note('swap_accepted' if M.truth_value(changed) else 'no_swap')
+        M.note('swap_accepted:randomizer_bin_und' if M.truth_value(changed) else 'no_swap')
